@@ -602,6 +602,7 @@ nni_http_conn_reset(nng_http *conn)
 {
 	nni_http_req_reset(&conn->req);
 	nni_http_res_reset(&conn->res);
+	conn->iserr = false; // the answer to the next request is not an error page
 	(void) snprintf(conn->meth, sizeof(conn->meth), "GET");
 	if (strlen(conn->host)) {
 		nni_http_set_host(conn, conn->host);
